@@ -130,18 +130,29 @@ pub fn run(a: &Args) {
         let bytes = assemble(&chunks);
         let name = format!("alternating-widths-{}x{}-c{}-limit{}-x{}", cw, chh, bpp_color, limit, nframes);
         o.mark(&format!("apng under limit {}", name));
+        let charged: std::cell::RefCell<Vec<usize>> = std::cell::RefCell::new(vec![]);
         let r = guarded(|| -> Result<usize, String> {
             let mut d = png::Decoder::new(std::io::Cursor::new(&bytes));
             d.set_limits(png::Limits { bytes: limit });
             d.set_transformations(png::Transformations::IDENTITY);
             let mut rd = d.read_info().map_err(|e| format!("read_info: {}", e))?;
             let mut buf = vec![0x5Au8; rd.output_buffer_size()];
+            let r0 = rd.verif_limit_remaining();
             for (k, (fw, fh, px)) in expect.iter().enumerate() {
                 let oi = rd.next_frame(&mut buf).map_err(|e| format!("frame {} of {} ({}x{}): {}", k, expect.len(), fw, fh, e))?;
                 if (oi.width, oi.height) != (*fw, *fh) || buf[..oi.buffer_size()] != px[..] { return Err(format!("frame {}: wrong geometry or pixels", k)); }
+                if k > 0 { charged.borrow_mut().push(r0 - rd.verif_limit_remaining()); }
             }
             match rd.next_frame(&mut buf) { Err(_) => Ok(expect.len()), Ok(_) => Err("a frame beyond the last one was delivered".into()) }
         });
+        // the bytes charged for the shared row buffer after every frame vs Model/RowCharge.v (charged once, at the largest row so far)
+        {
+            let lens: Vec<String> = expect.iter().map(|(fw, _, _)| (*fw as usize * bytes_pp).to_string()).collect();
+            let got: Vec<String> = charged.borrow().iter().map(|c| c.to_string()).collect();
+            if got.len() + 1 == lens.len() {
+                o.case(&format!("rowcharge {} {}", lens[0], lens[1..].join(",")), &got.join(","), &format!("rowcharge-{}", name), true);
+            }
+        }
         o.direct_checks += 1;
         o.count("alternating-widths-under-limit");
         match r {
